@@ -14,4 +14,4 @@ one() {
   rm -rf "$D"
 }
 export -f one
-for k in $(ls $ROOT); do for s in $SEEDS; do echo "$k $s $ROOT"; done; done | xargs -P $P -L 1 bash -c 'one $0 $1 $2'
+for k in $(ls $ROOT); do grep -q "\"status\": \"superseded" $ROOT/$k/meta.json 2>/dev/null && continue; for s in $SEEDS; do echo "$k $s $ROOT"; done; done | xargs -P $P -L 1 bash -c 'one $0 $1 $2'
